@@ -2,11 +2,11 @@
 CONFIG = {
     "manifest": {
         "level_text": "Coq theorems for ALL inputs. Over the reals: with the number of chords arc_num_points prescribes (or more) every point of a circular arc of any radius, span (any sign, beyond a full turn) and tolerance (including tolerance >= 2 radius) is within 4 tol of the chord of its own angular step (arc_sagitta_bound, with 1 - cos 2a <= 4 (1 - cos a) and the chord deviation r (cos phi - cos d)); the clamped Bezier step angle is always defined and its clamp condition is the rational inequality cross^2 tol^2 > 4 |dc|^6; the two-point acceptance test of append_cubic bounds a cubic piece by 3.2 tol. Over the rationals, closed under the global context: de Casteljau = Bernstein form, end points at t = 0, 1; the statement-level model of Curve's bookkeeping (every call kind, relative and absolute, any sequence, commands) makes every section start at the current point, end at the requested point and leaves last_ctrl equal to the penultimate control point that a following smooth section reflects; the integer point-segment distance test is exact and scale invariant; rectangle and cross have exactly the documented vertices. Tier B: the deviation of the implementation's own polylines is validated per run, not proved: its vertices (exact dyadic rationals) are checked to lie on the exact curve in order and the exact curve is checked to stay within K tol of each chord (K = 4 arcs/ellipses/racetracks/cubics/general Bezier, 2 quadratics, 7 fillets) by the extracted integer oracles at up to 64 points per chord.",
-        "level_note": "Axioms under the real-number theorems (standard library only): ClassicalDedekindReals.sig_forall_dec, ClassicalDedekindReals.sig_not_dec, FunctionalExtensionality.functional_extensionality_dep, Classical_Prop.classic (arc_sagitta_bound); all rational/integer theorems are closed. Not proved: floating-point rounding, libm, hobby_interpolation (its control points are taken from the library; the routine itself and gauss_jordan_elimination are modelled in coq/Hobby.v over an abstract carrier - gauss_jordan_solves / _singular / _result over any field, the assembled systems are exactly the turning and mock-curvature equations of the algorithm, constrained knots get exactly the requested direction, all conditional on no elimination skipping a column - and tied bit for bit through the binary64 instance, unit c15_hobby), the deviation of polynomial sections (sampled, classes with control directions within a quarter turn only) and of elliptical arcs (the circular theorem transfers by an affine contraction argument that is not formalised). The deviation test runs on a grid of tol*2^-12 with a 4-unit guard (K tol (1 + 0.001/K)). Known findings kept: ellipse() slices are still sized from the untransformed span, bezier() with a single point crashes, fillet keeps a spike corner far from its arc.",
+        "level_note": "Axioms under the real-number theorems (standard library only): ClassicalDedekindReals.sig_forall_dec, ClassicalDedekindReals.sig_not_dec, FunctionalExtensionality.functional_extensionality_dep, Classical_Prop.classic (arc_sagitta_bound); all rational/integer theorems are closed. Not proved: floating-point rounding, libm, hobby_interpolation (its control points are taken from the library; the routine itself and gauss_jordan_elimination are modelled in coq/Hobby.v over an abstract carrier - gauss_jordan_solves / _singular / _result over any field, the assembled systems are exactly the turning and mock-curvature equations of the algorithm, constrained knots get exactly the requested direction, all conditional on no elimination skipping a column - and tied bit for bit through the binary64 instance, unit c15_hobby), the deviation of polynomial sections (sampled, classes with control directions within a quarter turn only) ; elliptical arcs ARE covered (EllipseBound.v: with the chord count of Curve::arc / ellipse() - parametric span, larger radius - every point of the ellipse, any radii > 0 / span / axis rotation / tolerance, is within 4 tol of the chord of its parameter step, by the affine contraction from the circle of the larger radius; same four real-number axioms); negative radii are outside the theorem (the count is then taken from the signed values: arc(-10, 1, 0, pi, 0) at tolerance 0.01 gives 11 chords and deviates 5.9 tol - noted, not generated). The deviation test runs on a grid of tol*2^-12 with a 4-unit guard (K tol (1 + 0.001/K)). Known findings kept: bezier() with a single point crashes, fillet keeps a spike corner far from its arc.",
         "technique": "Coq proofs (Reals for the sagitta bound, Q/Z for Bezier evaluation, section bookkeeping and the distance oracle) + per-run validation of the implementation's vertices by exact oracles extracted from Coq (Tier B: proved glue and oracle, sampled numeric kernel)",
     },
     "prop_file": "Properties_C15",
-    "extra_prop_files": ["Properties_C15H"],   # gauss_jordan_elimination and hobby_interpolation (Hobby*.v)
+    "extra_prop_files": ["Properties_C15H", "Properties_C15E"],   # gauss_jordan_elimination and hobby_interpolation (Hobby*.v)
     "units": [
         {"harness": "c15", "driver": "c15", "extracted": ["c15"], "extract_file": "Extract_C15", "thorough_seeds": 2},
         # the control points of interpolation(): gauss_jordan_elimination and hobby_interpolation against their binary64 model,
